@@ -4,6 +4,7 @@ package c15
 import (
 	"encoding/json"
 	"fmt"
+	"strconv"
 	"strings"
 
 	"verif/internal/fw"
@@ -31,7 +32,11 @@ func (checker) State(c modedit.Case) (string, bool) {
 		}
 	}
 	if !modedit.Equal(typed, parsed) {
-		return fmt.Sprintf("after %s + Cleanup the in-memory directive lists differ from a strict parse of the formatted file: %s\n%s", modedit.HistString(c.Hist), modedit.Diff(typed, parsed), text), true
+		msg := fmt.Sprintf("after %s + Cleanup the in-memory directive lists differ from a strict parse of the formatted file: %s\n%s", modedit.HistString(c.Hist), modedit.Diff(typed, parsed), text)
+		if paragraphsReattached(c, typed, parsed) {
+			return KnownParagraphs + msg, true
+		}
+		return msg, true
 	}
 	if bad := d.Liveness(); len(bad) > 0 {
 		return fmt.Sprintf("after %s + Cleanup: %s", modedit.HistString(c.Hist), strings.Join(bad, "; ")), true
@@ -80,6 +85,73 @@ func (checker) Transition(c modedit.Case) string {
 		return fmt.Sprintf("%s applied in the same session after %s gives different directives than applied to a fresh parse of the same file: %s\n--- same session:\n%s--- fresh parse:\n%s", c.Next, modedit.HistString(c.Hist), modedit.Diff(dx, dy), tx, ty)
 	}
 	return ""
+}
+
+// KnownParagraphs prefixes violations of the recorded finding class:comment-paragraphs-reattach-on-reblock.
+const KnownParagraphs = "class:comment-paragraphs-reattach-on-reblock|"
+
+// paragraphsReattached recognises the recorded finding: the starting file has a blank line inside a block, the
+// history cleans up and later adds a retraction (which puts a collapsed line back into a block),
+// the two dumps differ only in comment text, and wherever they differ one text is the other with leading
+// lines removed (comment paragraphs above a blank line counted on one side and not on the other), neither
+// being empty.
+func paragraphsReattached(c modedit.Case, typed, parsed []string) bool {
+	if !strings.Contains(c.Seed, "\n\n\t") {
+		return false
+	}
+	// the history must put a collapsed line back into a block: an explicit Cleanup, later an AddRetract
+	cleaned, reblocked := false, false
+	for _, o := range c.Hist {
+		if o.Kind == "Cleanup" {
+			cleaned = true
+		}
+		if cleaned && o.Kind == "AddRetract" {
+			reblocked = true
+		}
+	}
+	if !reblocked {
+		return false
+	}
+	if !modedit.Equal(stripCommentText(typed), stripCommentText(parsed)) {
+		return false
+	}
+	text := func(d []string) map[string][]string {
+		m := map[string][]string{}
+		for _, s := range d {
+			for _, cut := range []string{" rationale=", " deprecated="} {
+				if j := strings.Index(s, cut); j >= 0 {
+					m[s[:j]] = append(m[s[:j]], s[j+len(cut):])
+				}
+			}
+		}
+		return m
+	}
+	a, b := text(typed), text(parsed)
+	for k, va := range a {
+		vb := b[k]
+		if len(va) != len(vb) {
+			return false
+		}
+		for i := range va {
+			x, y := va[i], vb[i]
+			if x == y {
+				continue
+			}
+			// quoted forms: compare the unquoted texts
+			ux, e1 := strconv.Unquote(x)
+			uy, e2 := strconv.Unquote(y)
+			if e1 != nil || e2 != nil {
+				ux, uy = x, y
+			}
+			if len(ux) > len(uy) {
+				ux, uy = uy, ux
+			}
+			if ux == "" || !(strings.HasSuffix(uy, "\n"+ux)) {
+				return false
+			}
+		}
+	}
+	return true
 }
 
 func stripCommentText(d []string) []string {
@@ -161,6 +233,6 @@ func Replay(r *fw.Run, raw json.RawMessage) {
 		msg, _ = checker{}.State(c)
 	}
 	if msg != "" {
-		r.Violation(c.Key(), msg, c)
+		modedit.Report(r, c, msg)
 	}
 }
